@@ -1,0 +1,30 @@
+//go:build verif
+
+package antispoof
+
+import "github.com/cilium/ebpf"
+
+// VerifSetMaps injects already-created maps in place of the ones Start takes
+// from the loaded collection (Start needs the compiled object and a NIC).
+// Add-only verification hook; it does not touch the maps.
+func (m *Manager) VerifSetMaps(bindings, config, stats, ranges *ebpf.Map) {
+	m.bindings = bindings
+	m.config = config
+	m.stats = stats
+	m.ranges = ranges
+}
+
+// VerifStartConfig performs the "Set default configuration" step of Start on
+// the injected config map (same value Start writes: the manager's mode,
+// LogViolations 1).
+func (m *Manager) VerifStartConfig() error {
+	if m.config == nil {
+		return nil
+	}
+	cfg := Config{
+		DefaultMode:   uint8(m.mode),
+		LogViolations: 1,
+	}
+	var key uint32 = 0
+	return m.config.Put(&key, &cfg)
+}
